@@ -107,7 +107,13 @@ func cEv(e Ev) string {
 	case "uid":
 		return cApp("EUid", cBytes(e.Data))
 	case "tm":
-		return cApp("ETime", cBytes([]byte(e.T.String())))
+		// a value that compact_time's Validate rejects (zero value excepted) is tagged with a leading
+		// NUL byte: see time_token_valid in Model/Rules.v
+		tok := []byte(e.T.String())
+		if !e.T.IsZeroValue() && e.T.Validate() != nil {
+			tok = append([]byte{0}, tok...)
+		}
+		return cApp("ETime", cBytes(tok))
 	case "l":
 		return "EList"
 	case "m":
